@@ -478,4 +478,7 @@ def check(ctx, res) -> None:
     _check_body(ctx, res)
     from .common import memo_key_rule
 
+    from .common import identifier_char_rule
+
+    identifier_char_rule(ctx, res, "R03.16", ("rope.refactor.extract", "rope.refactor.similarfinder", "rope.refactor.wildcards"))
     memo_key_rule(ctx, res, "R03.15", ("rope.refactor.similarfinder", "rope.refactor.wildcards", "rope.refactor.extract"))
